@@ -208,8 +208,12 @@ void Symmetrizer::compute(bool ignore_symmetries)
                 unsigned short Spin = IndexInfo.getInfo(i).Spin;
                 if ( Spin == up ) SpinUpIndices.push_back(i);
             }
-            Operator op_sz = Pomerol::OperatorPresets::Sz(IndexSize, SpinUpIndices);
-            if (this->checkSymmetry(op_sz)) INFO("[ H ," << op_sz << " ]=0");
+            // Sz pairs every spin-up index with a spin-down one and cannot be constructed
+            // (its constructor throws) when their numbers differ, e.g. for spinless sites.
+            if (2*SpinUpIndices.size() == IndexSize) {
+                Operator op_sz = Pomerol::OperatorPresets::Sz(IndexSize, SpinUpIndices);
+                if (this->checkSymmetry(op_sz)) INFO("[ H ," << op_sz << " ]=0");
+            }
         };
     };
 
